@@ -10,6 +10,8 @@ def explore(run, lean):
                          "non-trivial = the script contains an operation the property speaks about; distinct by canonical JSON")
     ROUND6_RULE = '; queries between steps: the names are read after is_in / child_state as well; named and un-named active objects: names right after start_at and after an event'
     run.extra["rule"] += ROUND6_RULE
+    ROUND8_RULE = '; charts all of whose state functions share one __name__ (round 8)'
+    run.extra["rule"] = run.extra.get("rule", "") + ROUND8_RULE
 
 
 def replay(case):
